@@ -65,6 +65,34 @@ def farm_behaviours(seed, tier, tdir):
                      "sim_states": int(m.group(1)) if m else 0, "sample_behaviour": json.loads(out[0])}}
 
 
+def pool_behaviours(seed, tier, tdir):
+    """TLC -simulate on MC_Pool (MC_Pool_sim.cfg: amounts scaled by 1000, minimum liquidity 1000) prints complete
+    behaviours with the state predicted after every step; they are replayed on the real contracts."""
+    n = 300 if tier == "thorough" else 40
+    num = 1500 if tier == "thorough" else 200
+    cmd = ["timeout", "600", "java", "-XX:+UseParallelGC", "-Xmx4g", "-cp", CP, "tlc2.TLC", "-workers", "1",
+           "-simulate", f"num={num}", "-depth", "40", "-seed", str(seed), "-metadir", os.path.join(tdir, "simpool"),
+           "-cleanup", "-noGenerateSpecTE", "-config", "MC_Pool_sim.cfg", "MC_Pool.tla"]
+    p = subprocess.run(cmd, cwd=SPEC, capture_output=True, text=True)
+    seen, out = set(), []
+    for l in p.stdout.splitlines():
+        if l.startswith('<<"REPLAY", '):
+            j = json.loads(l.strip()[len('<<"REPLAY", '):-2])
+            if j not in seen:
+                seen.add(j)
+                out.append(j)
+    if "is violated" in p.stdout or not out:
+        raise RuntimeError("MC_Pool simulation failed or violated an invariant:\n" + p.stdout[-3000:])
+    random.Random(seed).shuffle(out)
+    path = os.path.join(tdir, "pool_behaviours.ndjson")
+    open(path, "w").write("\n".join(out[:n]) + "\n")
+    m = re.search(r"(\d+) states checked, (\d+) traces generated", p.stdout)
+    sample = json.loads(out[0])
+    return {"args": ["--behaviours", path],
+            "info": {"behaviours_distinct": len(seen), "replayed": min(n, len(out)), "sim_states": int(m.group(1)) if m else 0,
+                     "sample_behaviour": [{k: v for k, v in step.items() if k != "post"} for step in sample]}}
+
+
 def auth_edges(seed, tier, tdir):
     """TLC enumerates the complete authorisation graph of MC_Auth; every edge is replayed."""
     cmd = ["timeout", "300", "java", "-XX:+UseParallelGC", "-Xmx4g", "-cp", CP, "tlc2.TLC", "-workers", "1",
@@ -96,7 +124,8 @@ FAMILIES = {
 
 FAMILIES["auth"] = {"drivers": [{"name": "auth", "spec": "Trace_Auth", "pre": auth_edges}]}
 FAMILIES["fault"] = {"drivers": [{"name": "fault", "spec": "Trace_Fault"}]}
-FAMILIES["pool"] = {"drivers": [{"name": "pool", "spec": "Trace_Pool"}, {"name": "stable", "spec": "Trace_Pool"}]}
+FAMILIES["pool"] = {"drivers": [{"name": "pool", "spec": "Trace_Pool"}, {"name": "stable", "spec": "Trace_Pool"},
+                                {"name": "pool_replay", "spec": "Trace_Pool", "pre": pool_behaviours}]}
 
 PROPS = {
     "C20": {"level": "fault_enumeration", "models": ["MC_Exec"], "families": ["fault", "farm", "pool", "epoch", "auth"]},
